@@ -40,6 +40,17 @@ function validate(ctx, content)
   local spin = (B[tok] or 0) * 1000
   local acc = 0
   for i = 1, spin do acc = acc + i % 7 end
+  -- a coroutine of the script's own must run undisturbed, however much work it does
+  local gen = coroutine.wrap(function()
+    local c = 0
+    for i = 1, 30000 do c = c + 1 end
+    coroutine.yield(c)
+    coroutine.yield(c + 1)
+  end)
+  local first, second = gen(), gen()
+  if first ~= 30000 or second ~= 30001 then
+    return "COROUTINE-CANARY " .. tostring(first) .. " " .. tostring(second)
+  end
   local keys = {{}}
   for k, _ in pairs(ctx.attrs) do keys[#keys + 1] = k end
   table.sort(keys)
